@@ -652,6 +652,22 @@ func campaign(cfg *CheckCfg, bo *buildOut, tier string, seed uint64, tc TierCfg,
 				}
 				base := seed<<32 + uint64(b*tc.Block)
 				wr := runWorker(bo, cfg, "run", tier, base, runs, left, b)
+				if len(wr.hung) > 0 {
+					// The wall-clock watchdog ended a run. Runs are deterministic in their
+					// seed, so a real hang hangs again; a stall of the machine (all cores
+					// oversubscribed by other work) does not. The block is run once more:
+					// only a second stall is reported as infrastructure trouble (exit 2).
+					first := strings.Join(wr.hung, ",")
+					again := left
+					if again < 3*time.Minute {
+						again = 3 * time.Minute
+					}
+					wr2 := runWorker(bo, cfg, "run", tier, base, runs, again, b, "VERIF_WATCHDOG_S=180")
+					if len(wr2.hung) == 0 && wr2.err == "" {
+						fmt.Printf("NOTE: block %d of %s was stopped by the wall-clock watchdog (seed %s) and completed when run again: counted from the second run\n", b, cfg.ID, first)
+						wr = wr2
+					}
+				}
 				wr.cfg, wr.bo = cfg, bo
 				mu.Lock()
 				results = append(results, wr)
